@@ -256,8 +256,8 @@ def run(ctx):
     keep = list(wit)
 
     # ------------------------------------------------------------ 3. generated histories (in batches)
-    n_rand = ctx.n(4000, 150000)
-    n_mal = ctx.n(500, 15000)
+    n_rand = ctx.n(4000, 80000)
+    n_mal = ctx.n(500, 8000)
     batch = []
     for i in range(n_rand + n_mal):
         case = gen_case(ctx.rng, malformed=i >= n_rand)
@@ -380,22 +380,23 @@ def age_suite(ctx):
         for d in ds[:: max(1, len(ds) // 500)]:
             if f(T0 + d, T0) != fns[0][1](T0 + d, T0):
                 ctx.obligation("correspondence:age:%s" % name, False, "age expressions of login() differ at d=%d" % d)
+                break
     bad = ctx.diff_cases("c17_age", X.HEADER, "(fun p => age_s (fst p) (snd p))", cases,
                          lambda p: "(%s, %s)" % (X.enc_T(p[0]), X.enc_T(p[1])), enc_Z, "Z.eqb", shard=1000)
     ctx.count("cases:age", len(cases))
     if bad is not None:
         ctx.obligation("correspondence:age", not bad, "" if not bad else "age_s differs from %s at %r" % (fns[0][0], cases[bad[0]]))
     if not ctx.quick:
+        # where does CPython's float arithmetic stop agreeing with truncation?  (documented bound: 10^16 ns)
+        f = fns[0][1]
         first = None
-        for e in range(16, 19):
-            for k in range(1, 2000):
-                d = k * 10 ** (e - 3) * 1000 - 1
-                if fns[0][1](T0 + d, T0) != d // S:
-                    first = d
-                    break
-            if first:
+        for k in range(1, 20_000_000):
+            if f(T0 + k * S - 1, T0) != k - 1:
+                first = k
                 break
-        ctx.extra["first_float_deviation_ns_sampled"] = first
+        ctx.extra["first_float_deviation_at_seconds"] = first
+        if first is not None and first * S < 10 ** 16:
+            ctx.obligation("assumption:float-truncation-bound", False, "int(d/1000/1000/1000) deviates from truncation at d=%d*10^9-1" % first)
 
 
 def replay(ctx, path):
